@@ -134,6 +134,10 @@ def join_queries() -> List[dict]:
                 for c in conds:
                     for the in (False, True):
                         out.append({"the": the, "sel": sel, "vars": {sel: sel_c, v2: c2}, "cond": c})
+                ej2 = ["cmp", "==", ["attr", sel, ["child" if r1 == "parent" else "parent"]], ["attr", v2, [r2]]]
+                plain = ["cmp", "==", ["attr", sel, ["child", "size"]], ["lit", 7]]
+                for c in (["and", ej, ej2], ["or", ej, ej2], ["or", ej, plain], ["or", plain, ej], ["and", plain, ["or", ej, ej2]]):
+                    out.append({"the": False, "sel": sel, "vars": {sel: sel_c, v2: c2}, "cond": c})
     return out
 
 
@@ -455,6 +459,10 @@ def gen_query(rng: core.Rng, spec: List[dict], mode: str) -> dict:
                 return ["in", ["list", [rng.randint(1, 20) for _ in range(rng.randint(1, 3))]], a]
             others = [x for x in chains(vars_[a[1]]) if x[1] == k]
             return ["cmp", rng.choice(["==", "!="]), a, ["attr", a[1], rng.choice(others)[0]]]
+        if r < 0.06:
+            return ["truth", a]                               # a column as condition
+        if r < 0.10:
+            return ["cmp", rng.choice(["==", "!="]), a, ["lit", None]]
         if r < 0.50:
             return ["cmp", rng.choice(list(OPS)), a, ["lit", lit(k)]]
         if r < 0.66:
@@ -549,16 +557,20 @@ def sweep_queries(full: bool) -> List[dict]:
 # classes computed in Coq (EqlToSql.classes).  OPEN: a listed open finding may explain a memory/SQL difference there.
 # The others were repaired by fix: commits (now rejections) -- a difference explained only by them is a VIOLATION.
 ALL_BITS = {1: "K_othervar", 2: "K_null", 4: "K_relop", 16: "K_strop", 32: "K_varoperand", 64: "K_noneorder",
-            128: "K_strtruth", 256: "K_eqjoin_dropped", 512: "K_valueeq"}
-OPEN_BITS = {2: "K_null", 128: "K_strtruth", 256: "K_eqjoin_dropped", 512: "K_valueeq"}
+            128: "K_strtruth", 256: "K_eqjoin_dropped", 512: "K_valueeq", 1024: "K_or_join"}
+OPEN_BITS = {2: "K_null", 512: "K_valueeq"}
 KNOWN_BITS = OPEN_BITS
 
 
-def prop_agree(q: dict, mem: list, sql: list, in_f: bool) -> bool:
+def prop_agree(q: dict, mem: list, sql: list, in_f: bool, mask: int = 0) -> bool:
     if sql[0] == [1]:
         return True                                   # rejected with EQLTranslationError: allowed
     if sql[0] == [2]:
         return False                                  # another exception escaped the translator
+    if mask & 1024 and not in_f:
+        # an equality join below an or_: how often the evaluator yields an entity for a disjunction over different
+        # variable sets is its own business (C01); the selected SET must agree, the(...) is not comparable
+        return True if q["the"] else mem[1] == sql[1]
     # rows are compared as a BAG (the() through its outcome): every attribute of a non-selected variable is rejected now,
     # so whatever is accepted has one row per satisfying binding on both sides (C07_agree states list equality)
     return mem[0] == sql[0]
@@ -725,14 +737,14 @@ def run(tier: str, seed: int, replay=None) -> int:
                 bump("join_the_none")
             if mem[0] == [0, []]:
                 bump("join_no_partner_at_all")
-            if spec is not None and spec != mem:
+            if spec is not None and spec != mem and not mask & 1024:
                 bump("join_spec_differs_from_memory")
         for b, nme in ALL_BITS.items():
             if mask & b:
                 bump(nme)
         if mask & 8:
             bump("K_not")
-        agree = prop_agree(q, mem, sql, in_f)
+        agree = prop_agree(q, mem, sql, in_f, mask)
         bump("agree" if agree else "disagree")
         if not agree:
             if in_f:
@@ -768,7 +780,7 @@ def run(tier: str, seed: int, replay=None) -> int:
 
     # correspondence obligations
     mm_in = [c for c in model_mismatch if c["in_f"]]
-    mm_out = [c for c in model_mismatch if not c["in_f"] and prop_agree(c["q"], c["mem"], c["sql"], False)]
+    mm_out = [c for c in model_mismatch if not c["in_f"] and prop_agree(c["q"], c["mem"], c["sql"], False, c["mask"])]
     rep.oblige("correspondence:model(F07)", not mm_in,
                "" if not mm_in else f"{len(mm_in)} cases, first: {json.dumps(mm_in[0]['q'])} sql={mm_in[0]['sql']} model={mm_in[0]['model']}")
     sm_in = [c for c in spec_mismatch if c["in_f"]]
@@ -791,7 +803,7 @@ def run(tier: str, seed: int, replay=None) -> int:
         if c is None:
             rep.oblige(f"finding:{f.fid}", False, f"witness {f.witness} missing")
             continue
-        fails = not prop_agree(c["q"], c["mem"], c["sql"], c["in_f"])
+        fails = not prop_agree(c["q"], c["mem"], c["sql"], c["in_f"], c["mask"])
         if f.kind == "open":
             if fails and (c["model"] is None or c["model"] == c["sql"]):
                 rep.known(f)
@@ -804,7 +816,7 @@ def run(tier: str, seed: int, replay=None) -> int:
                 viol.append((c, f"regression of fixed finding {f.fid}"))
     for cexp in corpus_cases:
         exp = cexp.get("expect")
-        if exp and exp.get("agree") is True and not prop_agree(cexp["q"], cexp["mem"], cexp["sql"], cexp["in_f"]):
+        if exp and exp.get("agree") is True and not prop_agree(cexp["q"], cexp["mem"], cexp["sql"], cexp["in_f"], cexp["mask"]):
             if not any(cexp is v[0] for v in viol):
                 viol.append((cexp, "corpus case that must agree"))
 
@@ -813,7 +825,7 @@ def run(tier: str, seed: int, replay=None) -> int:
         (core.WORK / PROP).mkdir(parents=True, exist_ok=True)
         (core.WORK / PROP / "disagreements.json").write_text(json.dumps(
             [{"q": c["q"], "mem": c["mem"], "sql": c["sql"], "detail": c["detail"], "in_f": c["in_f"], "mask": c["mask"]}
-             for c in cases if not prop_agree(c["q"], c["mem"], c["sql"], c["in_f"])], indent=0))
+             for c in cases if not prop_agree(c["q"], c["mem"], c["sql"], c["in_f"], c["mask"])], indent=0))
     rep.extra["distribution"] = dict(sorted(dist.items()))
     rep.extra["known_finding_instances"] = known_instances
     rep.extra["disagreements_by_class"] = dict(sorted(by_class.items()))       # memory vs SQL, whatever the model says
